@@ -83,7 +83,8 @@ SPEC['C08'] = ('Recorded dependencies are exactly those of the latest execution'
   ('C08_general_refuted', 'Findings', 'C08_general_refuted', 'recorded finding (O7): with two different checkers on one target only the last require checker is kept'),
   ('C08_require_records_checker_and_stamp', 'Local2', 'update_require_dependency_done', 'a completed require records exactly DRequire t c stamp on the edge from the executing task'),
 ], 'PARTIAL: exactness over whole executions is decided by the store-dump correspondence and the op-log oracle.')
-SPEC['C09'] = ('Consistency is decided by the dependency checker on a timely stamp', ['Local', 'Local2', 'Justify', 'BuJust', 'TdForward', 'ExecJust', 'Mid'], [
+SPEC['C09'] = ('Consistency is decided by the dependency checker on a timely stamp', ['Local', 'Local2', 'Justify', 'BuJust', 'TdForward', 'ExecJust', 'Mid', 'SecondRead'], [
+  ('C09_second_read_keeps_first_dependency', 'SecondRead', 'second_read_keeps_first_dependency', 'one dependency per (task, target): a task that reads a resource it has already read or written in the same execution, with whatever checker, leaves the dependency graph exactly as it was -- the dependency recorded FIRST, with its checker and its stamp, is the one that later decides consistency (with a more lenient first checker this is the read form of the recorded finding O7)'),
   ('C09_failed_check_then_execution_with_mid_session_edits', 'Mid', 'msession_failed_check_then_execution', 'the same for sessions during which resources change from outside (the session contract broken)'),
   ('C09_executions_justified_session_reused_after_abort', 'Mid', 'zsession_executions_justified', 'the same when the Session is used on after a caught abort'),
   ('C09_executions_justified_with_mid_session_edits', 'Mid', 'msession_executions_justified', 'the same for sessions during which resources change from outside'),
